@@ -553,4 +553,24 @@ def drive(a, b, c, d):
 ''', vars=["y", "z"], forms=["yield from"], gen=True, ctx=["x"])
 
 
-BY_NAME = {t["name"]: t for t in TEMPLATES}
+class _ByName(dict):
+    """Hand-written templates by name; names gen<seed>_<k> are regenerated on demand (pv/corpus/gen.py)."""
+
+    def __missing__(self, name):
+        if name.startswith("gen") and "_" in name:
+            from pv.corpus.gen import generate
+
+            seed, k = name[3:].split("_")
+            t = generate(int(seed), int(k))
+            self[name] = t
+            return t
+        raise KeyError(name)
+
+
+BY_NAME = _ByName({t["name"]: t for t in TEMPLATES})
+
+
+def generated(seed, n):
+    from pv.corpus.gen import batch
+
+    return batch(seed, n)
